@@ -267,7 +267,7 @@ Qed.
 Lemma eval_field_spec c n a raw g :
   eval_field c n a raw = TOk (VT g) ->
   exists v f,
-    find_field (S (match c_db c with Some d => length d | None => 0 end)) (c_db c) (c_entry c) n [] = Some (Some v) /\
+    find_field (ff_fuel (c_db c)) (c_db c) (c_entry c) n [] = Some (Some v) /\
     (if raw then f = plain v else from_latex (c_dec c) v = TOk f) /\
     apply_afunc a f = TOk g.
 Proof.
